@@ -17,6 +17,9 @@ pub enum Lx {
     V(VRef),
     /// `Variable::One()`
     One,
+    /// a `Variable` constructed directly by the user (kind 0 = Committed, 1 = MultiplierLeft,
+    /// 2 = MultiplierRight, 3 = MultiplierOutput), not one returned by the API
+    Raw(u8, usize),
     /// a field constant (stays a field element until converted)
     K(Sc),
     /// `LinearCombination::default()`
